@@ -110,3 +110,28 @@ func getDelimiter(urlPart urlPart) string {
 	}
 	return "/"
 }
+
+// LookupDeclaredURL returns the value stored for exactly the declared URL
+// pattern (literal parts, "{name}" path parameters, a trailing wildcard), or
+// nil when no value was inserted for it. Unlike Lookup it never falls back to
+// the node of an enclosing wildcard pattern and never treats a literal part as
+// the value of a path parameter.
+func (urlTree *URLTree[T]) LookupDeclaredURL(url string) *T {
+	currentNode := urlTree.Root
+	for _, urlPart := range splitURL(url) {
+		var next *Node[T]
+		if urlPart.Value == wildcard {
+			next = currentNode.WildcardChild
+		} else if _, isPathParam := TryExtractPathParameter(urlPart.Value); isPathParam {
+			next = currentNode.ParametricChild.Child
+		} else if child, found := currentNode.ConstantChildren[urlPart.Value]; found &&
+			child.IsPartOfHost == urlPart.IsPartOfHost {
+			next = child
+		}
+		if next == nil {
+			return nil
+		}
+		currentNode = next
+	}
+	return currentNode.Value
+}
